@@ -272,24 +272,37 @@ func drawSpec(rt *rapid.T, a *adapter, maxKeys int, serializableOnly bool) *spec
 			}
 			e.id = gen.KeyID(rt, label+"_id")
 		} else {
-			types := a.types
-			if serializableOnly {
-				types = a.serializableTypes()
+			typ := rapid.SampledFrom(a.types).Draw(rt, label+"_type")
+			// Two things make a drawn key unfit: it shares material with an earlier entry (RSA pool keys,
+			// constant fillings and shrunk draws coincide; key material is never duplicated inside a keyset),
+			// or - where every key must have a proto form (monitoring serializes every key) - it has none
+			// (RSA-SSA-PSS with salt length 0).  The material comes from the generator and cannot be
+			// perturbed in place, so a second key of the type is drawn; only if that one is unfit as well
+			// is the entry left out.
+			unfit := ""
+			for _, lbl := range []string{label, label + "_alt"} {
+				e.info = keys.DrawTypeUsable(rt, lbl, typ)
+				unfit = ""
+				for _, o := range s.entries {
+					if twins(o, e) {
+						unfit = "sharing_material"
+					}
+				}
+				if serializableOnly && e.info.NoSerialization {
+					unfit = "not_serializable"
+				}
+				if unfit == "" {
+					break
+				}
+				evid.Add("redrawn_keys_"+unfit, 1)
 			}
-			e.info = keys.DrawTypeUsable(rt, label, rapid.SampledFrom(types).Draw(rt, label+"_type"))
+			if unfit != "" {
+				evid.Add("left_out_keys_"+unfit, 1)
+				continue
+			}
 			e.id = e.info.ID
 			if !e.info.HasID {
 				e.id = gen.KeyID(rt, label+"_ksid")
-			}
-			// key material is never duplicated inside a keyset (RSA pool keys, constant fillings and
-			// shrunk draws coincide): such a key is left out
-			dup := false
-			for _, o := range s.entries {
-				dup = dup || twins(o, e)
-			}
-			if dup {
-				evid.Add("left_out_keys_sharing_material", 1)
-				continue
 			}
 		}
 		id := e.id
